@@ -118,3 +118,34 @@ func H_C13_render() {
 		vAssert("PrettyHTML", string(s.PrettyHTML()) == string(out))
 	}
 }
+
+// the same renderings into a caller's buffer with spare capacity (room for part of the text, or for all of it):
+// a formatter that builds its digits in the spare room must still produce the exact grouped text
+//
+//verif:harness C13 quick p=1..1 spare=8..8
+//verif:harness C13 quick p=0..0 spare=128..128
+//verif:harness C13 thorough p=0..0 spare=8..8
+//verif:harness C13 thorough p=1..1 spare=128..128
+func H_C13_renderIntoBuffer(p int, spare int) {
+	s := Size(vU64("s"))
+	f := Format(vU8("f") & 3)
+	v, u := s.Shorten()
+	prefix := vBytes("prefix", p)
+	buf := make([]byte, p, p+spare)
+	copy(buf, prefix)
+	out, err := DefaultFormatter(buf, s, f)
+	vAssert("no-error", err == nil)
+	sep := ""
+	if f&FormatPretty != 0 {
+		sep = " "
+		if f&FormatHTML != 0 {
+			sep = "&nbsp;"
+		}
+	}
+	vAssert("prefix-kept", len(out) >= p && string(out[:p]) == string(prefix))
+	if len(out) >= p {
+		vAssert("rendering", refRendering(out[p:], v, u, sep))
+	}
+	vReach("pretty-4-digits", f == FormatPretty && v >= 1000 && v < 10000)
+	vReach("html", f == FormatPretty|FormatHTML)
+}
